@@ -15,21 +15,25 @@
 (*  succ{fam,a,ok,k,ka}          k = Successor(a)                             *)
 (*  isucc{fam,a,ok,k,ka,ksplit}  k = ImmediateSuccessor(a), a a prefix key;   *)
 (*        ksplit: Split(k) = len(k)                                           *)
+(*  table{keys} / scan{res} / seek{o,k,res}   a columnar sstable written with  *)
+(*        cockroachkvs.KeySchema, its full scan and SeekGE/SeekLT results     *)
 (*  every event carries n, its number in the file: no observation can be      *)
 (*  dropped unnoticed                                                         *)
 EXTENDS KeyOrder, Json
 
 Trace == ndJsonDeserialize("trace.ndjson")
 VARIABLES l,    \* next trace line
-          cnt   \* events of the current trace file consumed so far (every event carries its number n)
-vars == <<l, cnt>>
+          cnt,  \* events of the current trace file consumed so far (every event carries its number n)
+          tab   \* keys of the current cockroach columnar sstable
+vars == <<l, cnt, tab>>
 Ev == Trace[l]
 IsOp(o) == l <= Len(Trace) /\ Trace[l].op = o /\ l' = l + 1
-Is(o) == IsOp(o) /\ Ev.n = cnt + 1 /\ cnt' = cnt + 1
-TraceInit == l = 1 /\ cnt = 0 /\ TLCSet(1, 0)
+IsN(o) == IsOp(o) /\ Ev.n = cnt + 1 /\ cnt' = cnt + 1
+Is(o) == IsN(o) /\ UNCHANGED tab
+TraceInit == l = 1 /\ cnt = 0 /\ tab = <<>> /\ TLCSet(1, 0)
 
-Reset == IsOp("reset") /\ cnt' = 0
-Note == IsOp("note") /\ UNCHANGED cnt
+Reset == IsOp("reset") /\ cnt' = 0 /\ tab' = <<>>
+Note == IsOp("note") /\ UNCHANGED <<cnt, tab>>
 
 Pair == /\ Is("pair") /\ Ev.err = ""
         /\ Comparable(Ev.a, Ev.b)
@@ -66,7 +70,29 @@ ISucc == /\ Is("isucc") /\ Ev.err = ""
          /\ Ev.ok /\ Ev.k = [p |-> Append(Ev.a.p, 0), v |-> NoV]
          /\ Ev.ka < 0 /\ Ev.ksplit
 
-TraceNext == Reset \/ Note \/ Pair \/ Triple \/ Sep \/ Succ \/ ISucc
+(* ---- the cockroach columnar key schema (cockroachKeyWriter / cockroachKeySeeker) ---- *)
+(* table{keys}: the keys handed, in this order, to sstable.RawWriter.Add of a columnar table written with cockroachkvs.KeySchema *)
+StrictlySorted(t) == \A i \in 1..(Len(t) - 1) : Cmp(t[i], t[i + 1]) < 0
+Table == /\ IsN("table") /\ Ev.err = ""
+         /\ StrictlySorted(Ev.keys)
+         /\ tab' = Ev.keys
+(* scan{res}: First/Next over the table materialises the keys written, up to the comparer's own equivalences *)
+(* (the columnar schema stores wall and logical time, not the synthetic byte or the zero-logical length variant) *)
+SameKey(x, y) == x.p = y.p /\ Denote(x.v) = Denote(y.v)
+SameSeq(s, t) == Len(s) = Len(t) /\ \A i \in DOMAIN s : SameKey(s[i], t[i])
+Scan == /\ Is("scan") /\ Ev.err = "" /\ SameSeq(Ev.res, tab)
+(* seek{o,k,res}: SeekGE / SeekLT of a universe key lands on the first key >= k / the last key < k in the intended order *)
+GEIdx(k) == {i \in DOMAIN tab : Cmp(tab[i], k) >= 0}
+LTIdx(k) == {i \in DOMAIN tab : Cmp(tab[i], k) < 0}
+MinOf(Sx) == CHOOSE x \in Sx : \A y \in Sx : x <= y
+MaxOf(Sx) == CHOOSE x \in Sx : \A y \in Sx : x >= y
+Seek == /\ Is("seek") /\ Ev.err = ""
+        /\ \A i \in DOMAIN tab : Comparable(tab[i], Ev.k)
+        /\ SameSeq(Ev.res, IF Ev.o = "ge"
+                     THEN (IF GEIdx(Ev.k) = {} THEN <<>> ELSE <<tab[MinOf(GEIdx(Ev.k))]>>)
+                     ELSE (IF LTIdx(Ev.k) = {} THEN <<>> ELSE <<tab[MaxOf(LTIdx(Ev.k))]>>))
+
+TraceNext == Reset \/ Note \/ Pair \/ Triple \/ Sep \/ Succ \/ ISucc \/ Table \/ Scan \/ Seek
 TraceSpec == TraceInit /\ [][TraceNext]_vars
 HWM == IF l - 1 > TLCGet(1) THEN TLCSet(1, l - 1) ELSE TRUE
 TraceAccepted == PrintT(<<"HWM", TLCGet(1)>>) /\ TLCGet(1) = Len(Trace)
